@@ -34,7 +34,24 @@ fn has_table64(d: &D) -> bool {
     }
 }
 
+fn has_shared_global(d: &D) -> bool {
+    let any = |v: &Vec<(String, D)>| v.iter().any(|(_, d)| has_shared_global(d));
+    match d {
+        D::Module(m) => m.0.imports.values().chain(m.0.exports.values()).any(|e| matches!(e, CoreExtern::Global { shared: true, .. })),
+        D::Instance(es) => any(es),
+        D::Component(is, es) => any(is) || any(es),
+        D::Type(d) => has_shared_global(d),
+        _ => false,
+    }
+}
+
 fn oracle_field(out: &mut Out, a: &D, bd: &D) -> String {
+    // wasmparser 0.247 `entity_type` compares only mutability and content type of globals and
+    // ignores their `shared` flag (core import matching and the pinned wac tests require it)
+    if has_shared_global(a) != has_shared_global(bd) {
+        out.count("oracle:skipped-shared-flag");
+        return "-".into();
+    }
     // wasmparser 0.247 does not compare the table64 flag of tables (core import matching does)
     if has_table64(a) != has_table64(bd) {
         out.count("oracle:skipped-table64");
@@ -228,6 +245,11 @@ fn generate(args: &Args, seed: u64, thorough: bool, shard: usize, nshards: usize
     let nwit = if thorough { 1500 } else { args.num("wit", 60) } / nshards;
     for _ in 0..nwit {
         witgen::wit_cases(&mut out, &mut r);
+    }
+    // 4. `set_instantiation_argument` verdicts for a sample of WIT-derived exporter/importer pairs
+    let narg = if thorough { 600 } else { args.num("arg", 40) } / nshards;
+    for _ in 0..narg {
+        witgen::arg_case(&mut out, &mut r);
     }
     out.finish();
 }
